@@ -5,7 +5,9 @@
 //!   rules := `-` | rule;rule;…    (initial knowledge base, added in this order)
 //!   rule  := name:sal:flags:ag:actg:eff:exp:cond:acts
 //!            flags = bit0 enabled | bit1 no_loop | bit2 lock_on_active ; ag/actg = `_` | nat
-//!            eff/exp = `_` | nat | nat@<how>   — the abstract instant and how it is handed to the rule:
+//!            eff/exp = `_` | inst | inst@<how>   — the abstract instant and how it is handed to the rule;
+//!              inst = <sec> | <sec>f<nanos>  (abstract second + 0..999999999 nanoseconds, e.g. 10f700000 = 10 s + 700 µs;
+//!              the text twins write the fraction with 3 / 6 / 9 digits, the DateTime<Utc> twin adds nanos × (1 s / 10^9)):
 //!              (none)  with_date_effective_str / with_date_expires_str on the RFC 3339 text ending in `Z`
 //!              @+hhmm / @-hhmm   the same string twins on the SAME instant written with that UTC offset
 //!                      (e.g. 10@+0530 = `2001-01-01T05:30:10+05:30`, 10@-0800 = `2000-12-31T16:00:10-08:00`)
@@ -18,7 +20,9 @@
 //!                     2 SetWorkflowData — none of them touches the facts, the agenda or the loop control of `execute`
 //!                     (scheduled tasks only run through `execute_scheduled_tasks`), so the model sees a rule without it
 //!   ops   := `-` | op;op;…
-//!            X<t> execute_at_time(t) | C execute_with_callback (t = now = abstract time 50)
+//!            X<t> execute_at_time(t) (t = inst as above, e.g. X10f200000) | C execute_with_callback (t = now = abstract time 50)
+//!            X<t>u execute_at_time(t) with the timestamp built as a DateTime<Utc> by chrono arithmetic (base + t × 1 s)
+//!                  instead of by parsing the RFC 3339 text of t (the model sees the same instant)
 //!            F<g> set_agenda_focus | P pop_agenda_focus | Z clear_agenda_focus | N reset_no_loop_tracking
 //!            V<g> activate_agenda_group | A<rule> add_rule | R<n> remove_rule | E<n>/D<n> set_rule_enabled
 //!            S<f>.<v> facts.set
@@ -26,6 +30,11 @@
 //!            Q<0|1> disable_analytics() | enable_analytics(RuleAnalytics::new(AnalyticsConfig::default()))
 //!            MA<rule> / MR<n> / ME<n> / MD<n>  the knowledge-base calls of A / R / E / D through knowledge_base_mut()
 //!            K knowledge_base().clear()
+//!            H<m> | H<m>&<rule>&<rule>…  `*engine.knowledge_base_mut() = new_kb`: the WHOLE knowledge base is replaced by a freshly
+//!                  built one holding these rules (added in this order; a second rule of a name is refused). m tells how the new
+//!                  base's `version()` counter compares with the old one's: `l` fresh (one bump per rule), `s` padded with
+//!                  `clear()` calls on the still empty base up to exactly the old base's version (when it is not already above),
+//!                  `g` padded to above it. The model has no version: `execute` must not depend on it.
 //!            W<g> execute_workflow_step(group g)  (= set_agenda_focus; execute; process_workflow_actions)
 //!            Y<g>.<g>.… execute_workflow(groups)   (steps until one fires nothing), res = w<steps_executed> | err
 //!          max_cycles token `d` = the engine is built with `RustRuleEngine::new` (EngineConfig::default(): 100 cycles,
@@ -61,6 +70,9 @@ pub struct RuleSpec {
     pub exp: Option<u64>,
     pub effh: How,
     pub exph: How,
+    /// nanosecond parts of eff / exp (0 = a whole second)
+    pub effn: u32,
+    pub expn: u32,
     pub cond: (char, u64, i64),
     pub acts: Vec<(char, u64, i64)>,
 }
@@ -77,12 +89,33 @@ pub enum How {
     Utc,
 }
 
-fn opt_date(s: &str) -> Option<(Option<u64>, How)> {
+/// `<sec>` | `<sec>f<nanos>` (nanos = 0..999_999_999 as a plain integer)
+pub fn parse_instant(s: &str) -> Option<(u64, u32)> {
+    match s.split_once('f') {
+        Some((a, n)) => {
+            let n: u32 = n.parse().ok()?;
+            if n >= 1_000_000_000 {
+                return None;
+            }
+            Some((a.parse().ok()?, n))
+        }
+        None => Some((s.parse().ok()?, 0)),
+    }
+}
+pub fn show_instant(sec: u64, nanos: u32) -> String {
+    if nanos == 0 {
+        sec.to_string()
+    } else {
+        format!("{}f{}", sec, nanos)
+    }
+}
+
+fn opt_date(s: &str) -> Option<(Option<(u64, u32)>, How)> {
     let (a, h) = match s.split_once('@') {
         Some((a, h)) => (a, Some(h)),
         None => (s, None),
     };
-    let a = opt(a)?;
+    let a = if a == "_" { None } else { Some(parse_instant(a)?) };
     let how = match h {
         None => How::Z,
         Some("u") => How::Utc,
@@ -108,12 +141,12 @@ fn opt_date(s: &str) -> Option<(Option<u64>, How)> {
     }
     Some((a, how))
 }
-fn show_date(o: &Option<u64>, h: How) -> String {
+fn show_date(o: &Option<u64>, n: u32, h: How) -> String {
     match (o, h) {
         (None, _) => "_".into(),
-        (Some(x), How::Z) => x.to_string(),
-        (Some(x), How::Utc) => format!("{}@u", x),
-        (Some(x), How::Off(m)) => format!("{}@{}{:02}{:02}", x, if m < 0 { '-' } else { '+' }, m.abs() / 60, m.abs() % 60),
+        (Some(x), How::Z) => show_instant(*x, n),
+        (Some(x), How::Utc) => format!("{}@u", show_instant(*x, n)),
+        (Some(x), How::Off(m)) => format!("{}@{}{:02}{:02}", show_instant(*x, n), if m < 0 { '-' } else { '+' }, m.abs() / 60, m.abs() % 60),
     }
 }
 
@@ -161,6 +194,8 @@ pub fn parse_rule(s: &str) -> Option<RuleSpec> {
     }
     let (eff, effh) = opt_date(p[5])?;
     let (exp, exph) = opt_date(p[6])?;
+    let (effn, expn) = (eff.map(|x| x.1).unwrap_or(0), exp.map(|x| x.1).unwrap_or(0));
+    let (eff, exp) = (eff.map(|x| x.0), exp.map(|x| x.0));
     Some(RuleSpec {
         name: p[0].parse().ok()?,
         sal: p[1].parse().ok()?,
@@ -171,6 +206,8 @@ pub fn parse_rule(s: &str) -> Option<RuleSpec> {
         exp,
         effh,
         exph,
+        effn,
+        expn,
         cond: (c[0].chars().next()?, c[1].parse().ok()?, c[2].parse().ok()?),
         acts,
     })
@@ -193,8 +230,8 @@ pub fn show_rule(r: &RuleSpec) -> String {
         r.flags,
         show_opt(&r.ag),
         show_opt(&r.actg),
-        show_date(&r.eff, r.effh),
-        show_date(&r.exp, r.exph),
+        show_date(&r.eff, r.effn, r.effh),
+        show_date(&r.exp, r.expn, r.exph),
         r.cond.0,
         r.cond.1,
         r.cond.2,
@@ -265,33 +302,47 @@ fn group_id(s: &str) -> String {
     }
 }
 
-fn date_str(a: u64) -> String {
-    if a < 50 {
-        format!("2001-01-01T00:00:{:02}Z", a)
+/// fractional-second text of `n` nanoseconds: nothing for 0, else 3 / 6 / 9 digits (the shortest exact one)
+fn frac(n: u32) -> String {
+    if n == 0 {
+        String::new()
+    } else if n % 1_000_000 == 0 {
+        format!(".{:03}", n / 1_000_000)
+    } else if n % 1_000 == 0 {
+        format!(".{:06}", n / 1_000)
     } else {
-        format!("2201-01-01T00:00:{:02}Z", (a - 50).min(59))
+        format!(".{:09}", n)
     }
 }
 
-/// the instant of `date_str(a)` written with a UTC offset of `off` minutes: local time = instant + offset.
+fn date_str(a: u64, n: u32) -> String {
+    if a < 50 {
+        format!("2001-01-01T00:00:{:02}{}Z", a, frac(n))
+    } else {
+        format!("2201-01-01T00:00:{:02}{}Z", (a - 50).min(59), frac(n))
+    }
+}
+
+/// the instant of `date_str(a, n)` written with a UTC offset of `off` minutes: local time = instant + offset.
 /// The abstract instants are seconds after midnight of 1 January (2001 / 2201), so a positive offset stays on
 /// that day and a negative one lands on 31 December of the year before (the text crosses midnight and the year).
-fn date_str_off(a: u64, off: i32) -> String {
+fn date_str_off(a: u64, n: u32, off: i32) -> String {
     let (year, sec) = if a < 50 { (2001, a) } else { (2201, (a - 50).min(59)) };
     let (sign, m) = if off < 0 { ('-', -off) } else { ('+', off) };
     let tz = format!("{}{:02}:{:02}", sign, m / 60, m % 60);
     if off >= 0 {
-        format!("{}-01-01T{:02}:{:02}:{:02}{}", year, m / 60, m % 60, sec, tz)
+        format!("{}-01-01T{:02}:{:02}:{:02}{}{}", year, m / 60, m % 60, sec, frac(n), tz)
     } else {
         let l = 24 * 60 - m;
-        format!("{}-12-31T{:02}:{:02}:{:02}{}", year - 1, l / 60, l % 60, sec, tz)
+        format!("{}-12-31T{:02}:{:02}:{:02}{}{}", year - 1, l / 60, l % 60, sec, frac(n), tz)
     }
 }
 
-/// a `DateTime<Utc>` for the abstract instant `a` without parsing a string per date: base instant + a × one second,
-/// by chrono's own arithmetic (the harness has no chrono dependency: the two base values and the one-second
-/// difference come from the public `date_effective` field of two throw-away rules built from `…:00Z` / `…:01Z`).
-fn date_utc(a: u64) -> impl FnOnce(Rule, bool) -> Rule {
+/// a `DateTime<Utc>` for the abstract instant `a` s + `n` ns without parsing a string per date: base instant + a × one
+/// second + n × one nanosecond, by chrono's own arithmetic (the harness has no chrono dependency: the two base values and
+/// the one-second difference come from the public `date_effective` field of two throw-away rules built from `…:00Z` /
+/// `…:01Z`; one nanosecond is that difference divided by 10^9).
+fn date_utc(a: u64, n: u32) -> impl FnOnce(Rule, bool) -> Rule {
     let dummy = |s: &str| {
         Rule::new("d".into(), ConditionGroup::single(Condition::new("x".into(), Operator::Equal, Value::Null)), vec![])
             .with_date_effective_str(s)
@@ -305,17 +356,20 @@ fn date_utc(a: u64) -> impl FnOnce(Rule, bool) -> Rule {
         (dummy("2201-01-01T00:00:00Z"), dummy("2201-01-01T00:00:01Z"), (a - 50).min(59))
     };
     let one = base1.signed_duration_since(base0);
-    let dt = base0 + one * (k as i32);
+    let mut dt = base0 + one * (k as i32);
+    if n > 0 {
+        dt = dt + (one / 1_000_000_000) * (n as i32);
+    }
     move |rule: Rule, expires: bool| if expires { rule.with_date_expires(dt) } else { rule.with_date_effective(dt) }
 }
 
-fn apply_date(rule: Rule, a: u64, how: How, expires: bool) -> Rule {
+fn apply_date(rule: Rule, a: u64, n: u32, how: How, expires: bool) -> Rule {
     match how {
-        How::Utc => date_utc(a)(rule, expires),
+        How::Utc => date_utc(a, n)(rule, expires),
         _ => {
             let text = match how {
-                How::Off(m) => date_str_off(a, m),
-                _ => date_str(a),
+                How::Off(m) => date_str_off(a, n, m),
+                _ => date_str(a, n),
             };
             if expires { rule.with_date_expires_str(&text).unwrap() } else { rule.with_date_effective_str(&text).unwrap() }
         }
@@ -382,10 +436,10 @@ fn build_rule(r: &RuleSpec, marker_always: bool) -> Rule {
         rule = rule.with_activation_group(format!("A{}", a));
     }
     if let Some(e) = r.eff {
-        rule = apply_date(rule, e, r.effh, false);
+        rule = apply_date(rule, e, r.effn, r.effh, false);
     }
     if let Some(x) = r.exp {
-        rule = apply_date(rule, x, r.exph, true);
+        rule = apply_date(rule, x, r.expn, r.exph, true);
     }
     rule
 }
@@ -472,12 +526,17 @@ pub fn exec_case(case: &str) -> String {
                         Err(e) => Err(e),
                     }
                 } else if k == 'X' {
-                    let Ok(t) = rest.parse::<u64>() else { return "bad-case".into() };
-                    let ts = Rule::new("d".into(), ConditionGroup::single(Condition::new("x".into(), Operator::Equal, Value::Null)), vec![])
-                        .with_date_effective_str(&date_str(t))
-                        .unwrap()
-                        .date_effective
-                        .unwrap();
+                    let (num, arith) = match rest.strip_suffix('u') {
+                        Some(n) => (n, true),
+                        None => (rest, false),
+                    };
+                    let Some((t, tn)) = parse_instant(num) else { return "bad-case".into() };
+                    let dummy = Rule::new("d".into(), ConditionGroup::single(Condition::new("x".into(), Operator::Equal, Value::Null)), vec![]);
+                    let ts = if arith {
+                        date_utc(t, tn)(dummy, false).date_effective.unwrap()
+                    } else {
+                        dummy.with_date_effective_str(&date_str(t, tn)).unwrap().date_effective.unwrap()
+                    };
                     eng.execute_at_time(&facts, ts)
                 } else {
                     eng.execute_with_callback(&facts, |name, _| cb.push(name.to_string()))
@@ -544,6 +603,29 @@ pub fn exec_case(case: &str) -> String {
                     )),
                     _ => return "bad-case".into(),
                 }
+                "u".into()
+            }
+            'H' => {
+                let mut parts = rest.split('&');
+                let mode = parts.next().unwrap_or("");
+                if !matches!(mode, "l" | "s" | "g") {
+                    return "bad-case".into();
+                }
+                let Some(rs) = parts.map(parse_rule).collect::<Option<Vec<RuleSpec>>>() else { return "bad-case".into() };
+                let new_kb = KnowledgeBase::new("c02-replaced");
+                let old_v = eng.knowledge_base().version();
+                let target = match mode {
+                    "s" => old_v.saturating_sub(rs.len() as u64),
+                    "g" => old_v + 3,
+                    _ => 0,
+                };
+                for _ in 0..target {
+                    new_kb.clear();
+                }
+                for r in &rs {
+                    let _ = new_kb.add_rule(build_rule(r, wf));
+                }
+                *eng.knowledge_base_mut() = new_kb;
                 "u".into()
             }
             'K' => {
@@ -735,7 +817,7 @@ fn gen_rule(rng: &mut Rng, name: u64, nf: u64, ngroups: u64, nact: u64) -> RuleS
     }
     let effh = if eff.is_some() { gen_how(rng) } else { How::Z };
     let exph = if exp.is_some() { gen_how(rng) } else { How::Z };
-    RuleSpec { name, sal: *rng.pick(&SALS), flags, ag, actg, eff, exp, effh, exph, cond, acts }
+    RuleSpec { name, sal: *rng.pick(&SALS), flags, ag, actg, eff, exp, effh, exph, effn: 0, expn: 0, cond, acts }
 }
 
 fn gen(rng: &mut Rng, n: usize, _tier: &str) -> Vec<String> {
@@ -772,7 +854,15 @@ fn gen(rng: &mut Rng, n: usize, _tier: &str) -> Vec<String> {
                 }
                 21 => { let nm = rng.below(nr + 2); format!("MA{}", show_rule(&gen_rule(rng, nm, nf, ngroups, nact))) }
                 22 => format!("M{}{}", rng.pick(&['R', 'E', 'D']), rng.below(nr + 1)),
-                23 => "K".to_string(),
+                23 => {
+                    if rng.chance(1, 2) {
+                        "K".to_string()
+                    } else {
+                        let k = rng.below(nr + 3);
+                        let rs: Vec<String> = (0..k).map(|i| show_rule(&gen_rule(rng, i, nf, ngroups, nact))).collect();
+                        format!("H{}{}", rng.pick(&['l', 's', 'g']), rs.iter().map(|r| format!("&{}", r)).collect::<String>())
+                    }
+                }
                 _ => format!("S{}.{}", rng.below(nf), rng.below(3)),
             };
             ops.push(o);
@@ -834,7 +924,7 @@ fn gen(rng: &mut Rng, n: usize, _tier: &str) -> Vec<String> {
                 eff: None,
                 exp: None,
                 effh: How::Z,
-                exph: How::Z,
+                exph: How::Z, effn: 0, expn: 0,
                 cond: if rng.chance(3, 4) { ('L', 0, 50) } else { gen_cond(rng, 2) },
                 acts: if rng.chance(1, 2) { vec![('A', rng.below(2), 1)] } else { vec![] },
             })
@@ -844,7 +934,7 @@ fn gen(rng: &mut Rng, n: usize, _tier: &str) -> Vec<String> {
             let sal = if rng.chance(5, 6) { *rng.pick(&[-5i64, -9, 0]) } else { 9 };
             let actg = if rng.chance(1, 4) { Some(rng.below(nact)) } else { None };
             let flags = if rng.chance(1, 4) { *rng.pick(&[5u8, 3, 7]) } else { 1 };
-            rules.push(RuleSpec { name: 9, sal, flags, ag: None, actg, eff: None, exp: None, effh: How::Z, exph: How::Z, cond: ('L', 0, 50), acts: vec![('A', 2, 1)] });
+            rules.push(RuleSpec { name: 9, sal, flags, ag: None, actg, eff: None, exp: None, effh: How::Z, exph: How::Z, effn: 0, expn: 0, cond: ('L', 0, 50), acts: vec![('A', 2, 1)] });
         }
         let ex = |rng: &mut Rng| match rng.below(5) {
             0 | 1 => "C".to_string(),
@@ -882,7 +972,7 @@ fn gen(rng: &mut Rng, n: usize, _tier: &str) -> Vec<String> {
                 eff: None,
                 exp: None,
                 effh: How::Z,
-                exph: How::Z,
+                exph: How::Z, effn: 0, expn: 0,
                 cond: if rng.chance(4, 5) { ('L', 0, 50) } else { gen_cond(rng, nf) },
                 acts: vec![],
             })
@@ -916,7 +1006,7 @@ fn gen(rng: &mut Rng, n: usize, _tier: &str) -> Vec<String> {
                 let effh = if eff.is_some() { off(rng) } else { How::Z };
                 let exph = if exp.is_some() { off(rng) } else { How::Z };
                 let acts = if rng.chance(1, 3) { vec![('A', 1, 1)] } else { vec![] };
-                RuleSpec { name: i, sal: *rng.pick(&[0i64, 0, 7, -5]), flags: 1, ag: None, actg: None, eff, exp, effh, exph, cond: ('L', 0, 50), acts }
+                RuleSpec { name: i, sal: *rng.pick(&[0i64, 0, 7, -5]), flags: 1, ag: None, actg: None, eff, exp, effh, exph, effn: 0, expn: 0, cond: ('L', 0, 50), acts }
             })
             .collect();
         let facts: Vec<Option<i64>> = vec![Some(0), Some(0)];
@@ -933,7 +1023,178 @@ fn gen(rng: &mut Rng, n: usize, _tier: &str) -> Vec<String> {
         }
         out.push(show_case(&Case { maxc: 1, facts, rules, ops }));
     }
+    for i in 0..n / 15 {
+        out.push(gen_boundary_walk(rng, i));
+    }
+    for _ in 0..n / 20 {
+        out.push(gen_kb_replace(rng));
+    }
     out
+}
+
+/// boundary-walk family (shared with C03): ONE engine, a rule with the window [e, x) (plus neighbours with only one of the
+/// two dates, a disabled twin, an empty window, sometimes a no-loop / lock-on-active / activation-group attribute or a
+/// self-triggering action), and `execute_at_time` at the ticks e-1, e, e+1, x-1, x, x+1 — before the window, at
+/// effective == t, inside, at expires == t, after — in ascending, descending or random order on the same engine.
+/// The tick is a whole second (1 case in 3) or 100 ms / 500 µs / 1 µs / 1 ns on a base instant with a sub-second part,
+/// so that the evaluation instants and the bounds fall into the SAME second / millisecond / microsecond and differ only
+/// in their sub-second / sub-millisecond / nanosecond part. Each date goes through one of the three builders (Z string
+/// with 3 / 6 / 9 fractional digits, offset string, DateTime<Utc> twin), each timestamp through the text or the arithmetic form.
+pub fn gen_boundary_walk(rng: &mut Rng, i: usize) -> String {
+    const NS: u64 = 1_000_000_000;
+    let unit: u64 = match rng.below(9) {
+        0..=2 => NS,
+        3 | 4 => 100_000_000,
+        5 | 6 => 500_000,
+        7 => 1_000,
+        _ => 1,
+    };
+    // base instant: whole seconds for the one-second tick, else a second plus a sub-second offset chosen so that all
+    // ticks of the walk stay inside one second (100 ms ticks) / one millisecond or straddle one (500 µs) / one microsecond
+    let base_sec = *rng.pick(&[3u64, 10, 20, 29]);
+    let base: u64 = base_sec * NS
+        + if unit == NS {
+            0
+        } else {
+            match unit {
+                100_000_000 => 100_000_000,
+                500_000 => *rng.pick(&[200_000u64, 500_200_000, 998_700_000]),
+                1_000 => *rng.pick(&[1_500u64, 700_001_000, 999_990_000]),
+                _ => *rng.pick(&[1u64, 999_999, 999_999_990, 123_456_789]),
+            }
+        };
+    let width = if unit == 100_000_000 { *rng.pick(&[1u64, 2, 3, 6]) } else { *rng.pick(&[1u64, 2, 3, 10]) };
+    // ticks: e = 1, x = 1 + width (tick 0 = base is one tick before the window)
+    let inst = |k: u64| -> (u64, u32) {
+        let v = base + k * unit;
+        (v / NS, (v % NS) as u32)
+    };
+    let (e, x) = (1u64, 1 + width);
+    let how = |rng: &mut Rng, i: usize| match i % 3 {
+        0 => How::Utc,
+        1 => How::Off(if rng.chance(3, 4) { *rng.pick(&OFFSETS) } else { (rng.below(2 * 1439 + 1) as i32) - 1439 }),
+        _ => gen_how(rng),
+    };
+    let base_rule = |name: u64, eff: Option<u64>, exp: Option<u64>, effh: How, exph: How, flags: u8| RuleSpec {
+        name,
+        sal: 0,
+        flags,
+        ag: None,
+        actg: None,
+        eff: eff.map(|k| inst(k).0),
+        exp: exp.map(|k| inst(k).0),
+        effh,
+        exph,
+        effn: eff.map(|k| inst(k).1).unwrap_or(0),
+        expn: exp.map(|k| inst(k).1).unwrap_or(0),
+        cond: ('L', 0, 50),
+        acts: vec![],
+    };
+    let mut rules = vec![base_rule(0, Some(e), Some(x), how(rng, i), how(rng, i + 1), 1)];
+    if rng.chance(2, 3) {
+        rules.push(base_rule(1, Some(e), None, how(rng, i + 1), How::Z, 1));
+    }
+    if rng.chance(2, 3) {
+        rules.push(base_rule(2, None, Some(x), How::Z, how(rng, i + 2), 1));
+    }
+    if rng.chance(1, 3) {
+        rules.push(base_rule(3, Some(e), Some(x), how(rng, i + 2), how(rng, i), 0)); // disabled twin: never fires
+    }
+    if rng.chance(1, 3) {
+        // an empty window (expires <= effective): never active
+        rules.push(base_rule(4, Some(x), Some(if rng.chance(1, 2) { x } else { e }), how(rng, i), how(rng, i + 1), 1));
+    }
+    match rng.below(6) {
+        0 => rules[0].flags |= 2,
+        1 => rules[0].flags |= 4,
+        2 => {
+            for r in rules.iter_mut() {
+                r.actg = Some(0);
+            }
+        }
+        3 => {
+            rules[0].sal = *rng.pick(&[7i64, -5]);
+            rules[0].acts = vec![('A', 1, 1)];
+        }
+        _ => {}
+    }
+    let mut ts: Vec<u64> = vec![e - 1, e, e + 1, x - 1, x, x + 1];
+    ts.sort();
+    ts.dedup();
+    match rng.below(3) {
+        0 => {}
+        1 => ts.reverse(),
+        _ => {
+            for a in (1..ts.len()).rev() {
+                let b = rng.below(a as u64 + 1) as usize;
+                ts.swap(a, b);
+            }
+        }
+    }
+    let mut ops: Vec<String> = Vec::new();
+    for k in ts {
+        let (s, n) = inst(k);
+        ops.push(format!("X{}{}", show_instant(s, n), if rng.chance(1, 2) { "u" } else { "" }));
+        if rng.chance(1, 8) {
+            ops.push(if rng.chance(1, 2) { "N".to_string() } else { "F0".to_string() });
+        }
+    }
+    show_case(&Case { maxc: *rng.pick(&[1usize, 1, 2, 3]), facts: vec![Some(0), Some(0)], rules, ops })
+}
+
+/// knowledge-base replacement family (shared with C03): an engine whose knowledge base has seen edits (so that its
+/// version counter is above its rule count), an execute, then `*knowledge_base_mut() = new_kb` with a new base of the
+/// same / a smaller / a larger version and more, as many or fewer rules (names reused or new, other saliences), then
+/// further executes, sometimes a second replacement. Conditions are mostly true, so every rule of the new base that is
+/// not evaluated shows as an eligible rule that did not fire.
+pub fn gen_kb_replace(rng: &mut Rng) -> String {
+    let nf = 2u64;
+    let mk = |rng: &mut Rng, name: u64| RuleSpec {
+        name,
+        sal: *rng.pick(&[7i64, 0, 0, -5, 3]),
+        flags: if rng.chance(1, 6) { 3 } else { 1 },
+        ag: None,
+        actg: if rng.chance(1, 6) { Some(0) } else { None },
+        eff: None,
+        exp: None,
+        effh: How::Z,
+        exph: How::Z,
+        effn: 0,
+        expn: 0,
+        cond: if rng.chance(4, 5) { ('L', 0, 50) } else { gen_cond(rng, nf) },
+        acts: if rng.chance(1, 3) { vec![('A', 1, 1)] } else { vec![] },
+    };
+    let n0 = rng.range(1, 4);
+    let rules: Vec<RuleSpec> = (0..n0).map(|i| mk(rng, i)).collect();
+    let ex = |rng: &mut Rng| match rng.below(4) {
+        0 => "C".to_string(),
+        1 => "T".to_string(),
+        _ => format!("X{}", rng.pick(&TIMES)),
+    };
+    let mut ops: Vec<String> = Vec::new();
+    // edits that raise the version counter without adding rules
+    for _ in 0..rng.below(4) {
+        ops.push(match rng.below(3) {
+            0 => format!("D{}", rng.below(n0)),
+            1 => format!("E{}", rng.below(n0)),
+            _ => format!("R{}", rng.below(n0)),
+        });
+    }
+    ops.push(ex(rng));
+    for round in 0..rng.range(1, 2) {
+        let k = match rng.below(4) {
+            0 => rng.below(n0 + 1),
+            _ => n0 + rng.range(1, 3),
+        };
+        let first = if rng.chance(1, 2) { 0 } else { 10 * (round + 1) };
+        let rs: String = (0..k).map(|i| format!("&{}", show_rule(&mk(rng, first + i)))).collect();
+        ops.push(format!("H{}{}", rng.pick(&['s', 's', 's', 'l', 'g']), rs));
+        ops.push(ex(rng));
+        if rng.chance(1, 3) {
+            ops.push(ex(rng));
+        }
+    }
+    show_case(&Case { maxc: *rng.pick(&[1usize, 2, 3]), facts: vec![Some(0), Some(0)], rules, ops })
 }
 
 pub fn shrink(case: &str) -> Vec<String> {
@@ -961,6 +1222,16 @@ pub fn shrink(case: &str) -> Vec<String> {
             }
         } else if let Some(o) = op.strip_prefix('M') {
             vars.push(o.to_string());
+        } else if let Some(h) = op.strip_prefix('H') {
+            let parts: Vec<&str> = h.split('&').collect();
+            for sub in shrink_list(&parts[1..]) {
+                vars.push(format!("H{}{}", parts[0], sub.iter().map(|r| format!("&{}", r)).collect::<String>()));
+            }
+            if parts[0] != "l" {
+                vars.push(format!("Hl{}", parts[1..].iter().map(|r| format!("&{}", r)).collect::<String>()));
+            }
+        } else if op.starts_with('X') && op.ends_with('u') {
+            vars.push(op[..op.len() - 1].to_string());
         }
         for v in vars {
             let mut ops = c.ops.clone();
@@ -979,6 +1250,9 @@ pub fn shrink(case: &str) -> Vec<String> {
         }
         if r.exp.is_some() {
             vars.push(RuleSpec { exp: None, exph: How::Z, ..r.clone() });
+        }
+        if r.effn != 0 || r.expn != 0 {
+            vars.push(RuleSpec { effn: 0, expn: 0, ..r.clone() });
         }
         if r.effh != How::Z {
             vars.push(RuleSpec { effh: How::Z, ..r.clone() });
